@@ -85,14 +85,15 @@ def main(tier):
                 nw += 1
     if nw:
         files.append(wpath)
+    _, dn = funcs.survey(chk, files, lambda ev: ev.get("e") in ("Login", "Wire"))
     out = funcs.judge_files(chk, "TraceLogin", "TraceLogin.cfg", files, "login",
                             sigfn=lambda ev: "%s:delta%s" % (ev.get("e"), ev.get("delta", "")))
     chk.cov["evaluations"] = out["events"]
     chk.cov["wire_events"] = nw
     chk.cov["wire_kinds"] = sorted({e["delta"] for evs in wires for e in evs})
-    chk.cov["distinct_nontrivial"] = sum(n for p, n, rc, e in prod) * 2 // 3
+    chk.cov["distinct_nontrivial"] = dn
     chk.cov["rule"] = ("one evaluation = one login_calculate() call, differential pair or wire message judged by TLC against "
-                       "the TLA+ MD5; non-trivial = calls with distinct (password, challenge)")
+                       "the TLA+ MD5; non-trivial = distinct (password, challenge, result) call and wire events")
     if nw == 0:
         chk.broken.append("no wire events recorded")
     chk.assumptions += ["TLC/JVM and the CommunityModules Bitwise overrides trusted; MD5.tla validated against RFC 1321 A.5"]
